@@ -1,1 +1,212 @@
-// verification hook for yuv/src/bt601.rs (compiled only under cfg(kani) or cfg(ruffle_rs_h263_rs_verif))
+// Hook module of yuv/src/bt601.rs: Kani contracts + native replay.  Properties: C07 (BT.601 per pixel), C08 (4:2:0 geometry).
+#![allow(dead_code, unused_imports)]
+use super::*;
+
+include!("/verif/hooks/common.rs");
+include!("/verif/spec/bt601.rs");
+#[cfg(kani)]
+include!("/verif/hooks/simd_stubs.rs");
+
+// ---------------------------------------------------------------------------------------------------------
+// C07: contract of the 4-pixel kernel: lane i of the output == bt601_spec::px(y[i], cb[i/2], cr[i/2])
+// all eight input bytes symbolic => the whole 2^24 domain on each of the four lanes, lanes independent
+// ---------------------------------------------------------------------------------------------------------
+fn h_px4<S: Src>(s: &mut S) {
+    let y: [u8; 4] = s.arr();
+    let cb: [u8; 2] = s.arr();
+    let cr: [u8; 2] = s.arr();
+    let mut out = [0u8; 16];
+    yuv_to_rgba_4x((&y, &cb, &cr), &mut out);
+    let mut i = 0;
+    while i < 4 {
+        let e = bt601_spec::px(y[i], cb[i / 2], cr[i / 2]);
+        chk!(s, out[4 * i] == e[0], "bt601.yuv_to_rgba_4x.post_r: R == 16.16 fixed-point BT.601");
+        chk!(s, out[4 * i + 1] == e[1], "bt601.yuv_to_rgba_4x.post_g: G == 16.16 fixed-point BT.601");
+        chk!(s, out[4 * i + 2] == e[2], "bt601.yuv_to_rgba_4x.post_b: B == 16.16 fixed-point BT.601");
+        chk!(s, out[4 * i + 3] == 255, "bt601.yuv_to_rgba_4x.post_a: alpha == 255");
+        i += 1;
+    }
+    s.reach();
+}
+
+// the coefficients the code uses are the BT.601 constants rounded to 16.16 (checked on the oracle's consts;
+// a coefficient digit changed in the code fails h_px4 instead)
+fn h_coeff<S: Src>(s: &mut S) {
+    chk!(s, bt601_spec::C_Y == 76309 && bt601_spec::C_RV == 104597 && bt601_spec::C_GV == -53279 && bt601_spec::C_GU == -25675 && bt601_spec::C_BU == 132201,
+          "spec.bt601.coefficients: round(65536*c) of the five BT.601 coefficients");
+    s.reach();
+}
+
+// spec lemma: the fixed-point value is within 1 of the clamped real-valued formula (exact rationals)
+fn h_within1<S: Src, const CH: usize>(s: &mut S) {
+    let (y, cb, cr) = (s.u8(), s.u8(), s.u8());
+    // R does not depend on Cb, B not on Cr: fix the irrelevant component to keep the query small
+    let (cb, cr) = if CH == 0 { (128, cr) } else if CH == 2 { (cb, 128) } else { (cb, cr) };
+    let p = bt601_spec::px(y, cb, cr);
+    let real = bt601_spec::real_scaled(y, cb, cr);
+    let d = p[CH] as i64 * bt601_spec::DEN - real[CH];
+    chk!(s, d <= bt601_spec::DEN && d >= -bt601_spec::DEN, "spec.bt601.within_one: |fixed-point - clamp(real formula)| <= 1");
+    s.reach();
+}
+
+// spec lemma: monotone in every component a channel depends on
+fn h_monotone<S: Src>(s: &mut S) {
+    let (y, cb, cr) = (s.u8(), s.u8(), s.u8());
+    let p = bt601_spec::px(y, cb, cr);
+    if y < 255 {
+        let q = bt601_spec::px(y + 1, cb, cr);
+        chk!(s, q[0] >= p[0] && q[1] >= p[1] && q[2] >= p[2], "spec.bt601.monotone_y: R,G,B non-decreasing in Y");
+    }
+    if cr < 255 {
+        let q = bt601_spec::px(y, cb, cr + 1);
+        chk!(s, q[0] >= p[0] && q[1] <= p[1] && q[2] == p[2], "spec.bt601.monotone_cr: R non-decreasing, G non-increasing, B independent of Cr");
+    }
+    if cb < 255 {
+        let q = bt601_spec::px(y, cb + 1, cr);
+        chk!(s, q[2] >= p[2] && q[1] <= p[1] && q[0] == p[0], "spec.bt601.monotone_cb: B non-decreasing, G non-increasing, R independent of Cb");
+    }
+    s.reach();
+}
+
+// ---------------------------------------------------------------------------------------------------------
+// C08: geometry of yuv420_to_rgba against the kernel's contract.
+// The caller never inspects what the kernel returns, so the pixel function F is left abstract: under Kani the
+// kernel is replaced by its contract stub in tagging form F(y,cb,cr) = [y,cb,cr,255] (injective, so every
+// mis-pairing of luma and chroma is visible); natively F = bt601_spec::px (the real kernel runs).
+// ---------------------------------------------------------------------------------------------------------
+fn tag_px(y: u8, cb: u8, cr: u8) -> [u8; 4] {
+    [y, cb, cr, 255]
+}
+fn tag_stub(yuv: (&[u8; 4], &[u8; 2], &[u8; 2]), rgba: &mut [u8; 16]) {
+    let (y, cb, cr) = yuv;
+    let mut i = 0;
+    while i < 4 {
+        let p = tag_px(y[i], cb[i / 2], cr[i / 2]);
+        rgba[4 * i] = p[0];
+        rgba[4 * i + 1] = p[1];
+        rgba[4 * i + 2] = p[2];
+        rgba[4 * i + 3] = p[3];
+        i += 1;
+    }
+}
+
+fn geom_core<S: Src>(s: &mut S, y: &[u8], cb: &[u8], cr: &[u8], w: usize, h: usize, f: fn(u8, u8, u8) -> [u8; 4]) {
+    let cw = (w + 1) / 2;
+    let out = yuv420_to_rgba(y, cb, cr, w);
+    chk!(s, out.len() == 4 * w * h, "bt601.yuv420_to_rgba.post_len: output holds width*height RGBA pixels");
+    let mut ok = out.len() == 4 * w * h;
+    let mut py = 0;
+    while py < h {
+        let mut px = 0;
+        while px < w {
+            let o = (px + py * w) * 4;
+            let e = f(y[px + py * w], cb[px / 2 + (py / 2) * cw], cr[px / 2 + (py / 2) * cw]);
+            if ok && !(out[o] == e[0] && out[o + 1] == e[1] && out[o + 2] == e[2] && out[o + 3] == e[3]) {
+                ok = false;
+            }
+            px += 1;
+        }
+        py += 1;
+    }
+    chk!(s, ok, "bt601.yuv420_to_rgba.post_pixel: pixel (x,y) == F(Y[x,y], Cb[x/2,y/2], Cr[x/2,y/2]) for every x,y");
+    s.reach();
+}
+fn h_geom<S: Src, const W: usize, const H: usize, const N: usize, const CN: usize>(s: &mut S, f: fn(u8, u8, u8) -> [u8; 4]) {
+    let y: [u8; N] = s.arr();
+    let cb: [u8; CN] = s.arr();
+    let cr: [u8; CN] = s.arr();
+    geom_core(s, &y, &cb, &cr, W, H, f);
+}
+#[cfg(not(kani))]
+fn h_geom_dyn(s: &mut RSrc, w: usize, h: usize) {
+    let cn = ((w + 1) / 2) * ((h + 1) / 2);
+    let y: Vec<u8> = (0..w * h).map(|_| s.u8()).collect();
+    let cb: Vec<u8> = (0..cn).map(|_| s.u8()).collect();
+    let cr: Vec<u8> = (0..cn).map(|_| s.u8()).collect();
+    geom_core(s, &y, &cb, &cr, w, h, bt601_spec::px);
+}
+fn h_empty<S: Src>(s: &mut S) {
+    let out = yuv420_to_rgba(&[], &[], &[], 0);
+    chk!(s, out.is_empty(), "bt601.yuv420_to_rgba.post_empty: an empty picture yields an empty output");
+    s.reach();
+}
+
+#[cfg(kani)]
+mod proofs {
+    use super::*;
+
+    #[kani::proof]
+    #[kani::unwind(6)]
+    #[kani::stub(core::arch::x86_64::_mm_sra_epi32, sra32_stub)]
+    #[kani::stub(core::arch::x86_64::_mm_sll_epi32, sll32_stub)]
+    fn px4() {
+        h_px4(&mut KSrc)
+    }
+    #[kani::proof]
+    fn coeff() {
+        h_coeff(&mut KSrc)
+    }
+    #[kani::proof]
+    fn within1_r() {
+        h_within1::<KSrc, 0>(&mut KSrc)
+    }
+    #[kani::proof]
+    fn within1_g() {
+        h_within1::<KSrc, 1>(&mut KSrc)
+    }
+    #[kani::proof]
+    fn within1_b() {
+        h_within1::<KSrc, 2>(&mut KSrc)
+    }
+    #[kani::proof]
+    fn monotone() {
+        h_monotone(&mut KSrc)
+    }
+    #[kani::proof]
+    #[kani::unwind(4)]
+    fn empty() {
+        h_empty(&mut KSrc)
+    }
+    macro_rules! geom {
+        ($name:ident, $w:expr, $h:expr, $unw:expr) => {
+            #[kani::proof]
+            #[kani::unwind($unw)]
+            #[kani::stub(super::super::yuv_to_rgba_4x, tag_stub)]
+            fn $name() {
+                h_geom::<KSrc, $w, $h, { $w * $h }, { (($w + 1) / 2) * (($h + 1) / 2) }>(&mut KSrc, tag_px)
+            }
+        };
+    }
+    include!("/verif/hooks/yuv/shapes.rs");
+}
+
+#[cfg(all(test, not(kani)))]
+mod replay {
+    use super::*;
+    #[test]
+    fn verif_replay() {
+        let name = std::env::var("VERIF_HARNESS").unwrap_or_default();
+        let mut r = RSrc::from_env();
+        match name.as_str() {
+            "px4" => h_px4(&mut r),
+            "coeff" => h_coeff(&mut r),
+            "within1_r" => h_within1::<RSrc, 0>(&mut r),
+            "within1_g" => h_within1::<RSrc, 1>(&mut r),
+            "within1_b" => h_within1::<RSrc, 2>(&mut r),
+            "monotone" => h_monotone(&mut r),
+            "empty" => h_empty(&mut r),
+            _ => {
+                let dims = name.rsplit('_').next().unwrap_or("");
+                let mut it = dims.split('x');
+                match (it.next().and_then(|v| v.parse().ok()), it.next().and_then(|v| v.parse().ok())) {
+                    (Some(w), Some(h)) => h_geom_dyn(&mut r, w, h),
+                    _ => {
+                        println!("REPLAY-UNKNOWN harness={}", name);
+                        return;
+                    }
+                }
+            }
+        }
+        r.report(&name);
+    }
+}
